@@ -106,7 +106,9 @@ def judge_trace(ctx, trace, source, kd, totals, max_events=None):
               wall_s=v["wall_s"], **{k: v.get(k, 0) for k in COUNTERS + INCONCLUSIVE if v.get(k, 0)})
     lib.classify_trace(ctx, v, trace, source, program_of=program_of)
     bad = {k: v.get(k, 0) for k in INCONCLUSIVE if v.get(k, 0)}
-    if bad:
+    # a judged fault that was accepted is a verdict even when the artifact's check value is not what the format says
+    # (a checksum that covers less than it should shows up as both); without such a verdict the run is inconclusive
+    if bad and not ctx.violations:
         raise lib.ToolError(f"{source}: the monitor could not decide ({bad}): an artifact does not have the format the "
                             "specification describes, the undamaged artifact was not accepted by its own loader, or a run "
                             "did not report every position it had to visit")
